@@ -104,7 +104,9 @@ func rank(v Verdict) int {
 	return 0
 }
 
-func (r *Report) OK(rule, construct, pos, detail string) { r.Add(rule, construct, Discharged, pos, detail) }
+func (r *Report) OK(rule, construct, pos, detail string) {
+	r.Add(rule, construct, Discharged, pos, detail)
+}
 func (r *Report) Bad(rule, construct, pos, detail string, witness ...string) {
 	r.Add(rule, construct, Violated, pos, detail, witness...)
 }
